@@ -53,8 +53,17 @@ func (p *parser) expression(prec int) (Node, error) {
 		return nil, err
 	}
 
+	return p.infix(node, prec, prec)
+}
+
+// infix applies the operators and selectors that follow node for as long as
+// they bind tighter than prec; the first one only has to bind tighter than
+// first.
+func (p *parser) infix(node Node, first, prec int) (Node, error) {
+	var err error
+
 	newPrec := precedence(p.curr.Type)
-	for newPrec > prec {
+	for limit := first; newPrec > limit; limit = prec {
 		switch p.curr.Type {
 		case lexer.AddToken:
 			if err := p.advance(); err != nil {
@@ -89,7 +98,7 @@ func (p *parser) expression(prec int) (Node, error) {
 				return nil, err
 			}
 
-			right, err := p.projection(precedence(lexer.ObjectWildcardToken))
+			right, err := p.projection(projectionPrec)
 			if err != nil {
 				return nil, err
 			}
@@ -172,16 +181,9 @@ func (p *parser) expression(prec int) (Node, error) {
 					return nil, err
 				}
 
-				if isProjectNode(node) {
-					node = &ProjectArrayNode{
-						Left:  node,
-						Right: right,
-					}
-				} else {
-					node = &PipeNode{
-						Left:  node,
-						Right: right,
-					}
+				node = &PipeNode{
+					Left:  node,
+					Right: right,
 				}
 			default:
 				return nil, &unexpectedTokenError{p.curr.Value}
@@ -350,7 +352,13 @@ func (p *parser) expression(prec int) (Node, error) {
 				return nil, err
 			}
 
-			right, err := p.projection(newPrec)
+			rightPrec := newPrec
+			if _, ok := node.(CurrentNode); ok {
+				// applied to the current node this is the prefix wildcard
+				rightPrec = projectionPrec
+			}
+
+			right, err := p.projection(rightPrec)
 			if err != nil {
 				return nil, err
 			}
@@ -377,16 +385,18 @@ func (p *parser) expression(prec int) (Node, error) {
 			}
 
 			if project {
-				right, err := p.projection(newPrec)
+				right, err := p.projection(projectionPrec)
 				if err != nil {
 					return nil, err
 				}
 
-				if right != nil {
-					node = &ProjectArrayNode{
-						Left:  node,
-						Right: right,
-					}
+				if right == nil {
+					right = CurrentNode{}
+				}
+
+				node = &ProjectArrayNode{
+					Left:  node,
+					Right: right,
 				}
 			}
 		case lexer.OrToken:
@@ -1637,7 +1647,7 @@ func (p *parser) primaryExpression() (Node, error) {
 			return nil, err
 		}
 
-		child, err := p.projection(precedence(lexer.ObjectWildcardToken))
+		child, err := p.projection(projectionPrec)
 		if err != nil {
 			return nil, err
 		}
@@ -1654,7 +1664,7 @@ func (p *parser) primaryExpression() (Node, error) {
 			return nil, err
 		}
 
-		child, err := p.projection(precedence(lexer.ObjectWildcardToken))
+		child, err := p.projection(projectionPrec)
 		if err != nil {
 			return nil, err
 		}
@@ -1784,16 +1794,18 @@ func (p *parser) primaryExpression() (Node, error) {
 			}
 
 			if project {
-				right, err := p.projection(precedence(lexer.OpenSqBraceToken))
+				right, err := p.projection(projectionPrec)
 				if err != nil {
 					return nil, err
 				}
 
-				if right != nil {
-					node = &ProjectArrayNode{
-						Left:  node,
-						Right: right,
-					}
+				if right == nil {
+					right = CurrentNode{}
+				}
+
+				node = &ProjectArrayNode{
+					Left:  node,
+					Right: right,
 				}
 			}
 		} else {
@@ -1873,196 +1885,22 @@ func (p *parser) primaryExpression() (Node, error) {
 	return node, nil
 }
 
+// projection parses the right-hand side of a projection: the selectors that
+// follow it and are applied to every projected element. The selector directly
+// after the projection always belongs to it, later ones only while they bind
+// tighter than prec. It returns nil if there is no right-hand side.
 func (p *parser) projection(prec int) (Node, error) {
-	var node Node
-	var err error
 	switch p.curr.Type {
-	case lexer.DotToken:
-		switch p.next.Type {
-		case lexer.ArrayWildcardToken:
-			if err := p.advance2(); err != nil {
-				return nil, err
-			}
-
-			node = &SelectArraySingleCurrentNode{
-				Field: ObjectValuesCurrentNode{},
-			}
-		case lexer.OpenBraceToken:
-			if err := p.advance2(); err != nil {
-				return nil, err
-			}
-
-			node, err = p.selectObject(nil)
-			if err != nil {
-				return nil, err
-			}
-		case lexer.OpenSqBraceToken:
-			if err := p.advance2(); err != nil {
-				return nil, err
-			}
-
-			node, err = p.selectArray(nil)
-			if err != nil {
-				return nil, err
-			}
-		case lexer.QuotedIdentifierToken,
-			lexer.UnquotedIdentifierToken:
-			if err := p.advance(); err != nil {
-				return nil, err
-			}
-
-			node, err = p.expression(prec)
-			if err != nil {
-				return nil, err
-			}
-		default:
-			return nil, &unexpectedTokenError{p.curr.Value}
-		}
-	case lexer.FilterToken:
-		if err := p.advance(); err != nil {
-			return nil, err
-		}
-
-		filter, err := p.filter()
-		if err != nil {
-			return nil, err
-		}
-
-		node = &FilterCurrentNode{
-			Filter: filter,
-		}
-	case lexer.ObjectWildcardToken:
-		if p.next.Type == lexer.EndToken {
-			if err := p.advance(); err != nil {
-				return nil, err
-			}
-
-			node = ObjectValuesCurrentNode{}
-		} else {
-			p.setCurrent(lexer.Token{
-				Type:  lexer.AsteriskToken,
-				Value: p.curr.Value[1:],
-			})
-
-			node, err = p.expression(prec)
-			if err != nil {
-				return nil, err
-			}
-		}
-	case lexer.OpenSqBraceToken:
-		if err := p.advance(); err != nil {
-			return nil, err
-		}
-
-		node, _, err = p.index(nil)
-		if err != nil {
-			return nil, err
-		}
+	case lexer.ArrayWildcardToken,
+		lexer.DotToken,
+		lexer.FilterToken,
+		lexer.ObjectWildcardToken,
+		lexer.OpenSqBraceToken:
 	default:
 		return nil, nil
 	}
 
-	newPrec := precedence(p.curr.Type)
-	for newPrec > prec {
-		switch p.curr.Type {
-		case lexer.DotToken:
-			switch p.next.Type {
-			case lexer.ArrayWildcardToken:
-				if err := p.advance2(); err != nil {
-					return nil, err
-				}
-
-				node = &SelectArraySingleNode{
-					Child: node,
-					Field: ObjectValuesCurrentNode{},
-				}
-			case lexer.OpenBraceToken:
-				if err := p.advance2(); err != nil {
-					return nil, err
-				}
-
-				node, err = p.selectObject(node)
-				if err != nil {
-					return nil, err
-				}
-			case lexer.OpenSqBraceToken:
-				if err := p.advance2(); err != nil {
-					return nil, err
-				}
-
-				node, err = p.selectArray(node)
-				if err != nil {
-					return nil, err
-				}
-			case lexer.QuotedIdentifierToken,
-				lexer.UnquotedIdentifierToken:
-				if err := p.advance(); err != nil {
-					return nil, err
-				}
-
-				node, err = p.expression(newPrec)
-				if err != nil {
-					return nil, err
-				}
-			default:
-				return nil, &unexpectedTokenError{p.curr.Value}
-			}
-		case lexer.FilterToken:
-			if err := p.advance(); err != nil {
-				return nil, err
-			}
-
-			filter, err := p.filter()
-			if err != nil {
-				return nil, err
-			}
-
-			node = &FilterNode{
-				Child:  node,
-				Filter: filter,
-			}
-		case lexer.ObjectWildcardToken:
-			if p.curr.Type == lexer.EndToken {
-				if err := p.advance(); err != nil {
-					return nil, err
-				}
-
-				node = &ObjectValuesNode{
-					Child: node,
-				}
-			} else {
-				p.setCurrent(lexer.Token{
-					Type:  lexer.AsteriskToken,
-					Value: p.curr.Value[1:],
-				})
-
-				right, err := p.expression(newPrec)
-				if err != nil {
-					return nil, err
-				}
-
-				node = &ProjectObjectNode{
-					Left:  node,
-					Right: right,
-				}
-			}
-		case lexer.OpenSqBraceToken:
-			if err := p.advance(); err != nil {
-				return nil, err
-			}
-
-			node, _, err = p.index(node)
-			if err != nil {
-				return nil, err
-			}
-		default:
-			return nil, &unexpectedTokenError{p.curr.Value}
-		}
-
-		newPrec = precedence(p.curr.Type)
-	}
-
-	return node, nil
+	return p.infix(CurrentNode{}, projectionPrec, prec)
 }
 
 func (p *parser) selectArray(child Node) (Node, error) {
@@ -2185,10 +2023,6 @@ func (p *parser) selectObject(child Node) (Node, error) {
 			}, nil
 		}
 	}
-}
-
-func (p *parser) setCurrent(tok lexer.Token) {
-	p.curr = tok
 }
 
 func parseJSONLiteral(s string) (Node, error) {
